@@ -1108,6 +1108,16 @@ func (env *SpecEnv) callExpr(e *SExpr) SVal {
 		for _, a := range e.Args {
 			as = append(as, env.termOrLoad(env.eval(a)))
 		}
+		if strings.HasPrefix(fn, "clause_") && len(as) == 1 {
+			// @clause_NAME(f): the contract of the function value f has a requires/ensures clause labelled NAME
+			// (known for functions under contract, uninterpreted otherwise) - the generalisation of @needswrite
+			vc.opaqueSort("Fn")
+			if vc.clauseLabels == nil {
+				vc.clauseLabels = map[string]bool{}
+			}
+			vc.clauseLabels[strings.TrimPrefix(fn, "clause_")] = true
+			return SVal{T: mk("(|hasclause!"+strings.TrimPrefix(fn, "clause_")+"| "+as[0].S+")", sortBool), GoT: types.Typ[types.Bool]}
+		}
 		rs := vc.smtFunSort(fn)
 		switch fn {
 		case "be256":
